@@ -39,6 +39,7 @@ var (
 	ErrInvalidIndex = errors.New("invalid index referenced")
 
 	ErrExpectedObject = errors.New("invalid value, expected object")
+	ErrExpectedArray  = errors.New("invalid value, expected array")
 
 	rawJSONArray  = []byte("[]")
 	rawJSONObject = []byte("{}")
@@ -424,6 +425,10 @@ func (n *lazyNode) equal(o *lazyNode) bool {
 		return false
 	}
 
+	if n.ary == nil || o.ary == nil {
+		return n.ary == nil && o.ary == nil
+	}
+
 	if len(n.ary.nodes) != len(o.ary.nodes) {
 		return false
 	}
@@ -649,6 +654,10 @@ func (d *partialDoc) remove(key string, options *ApplyOptions) error {
 // set should only be used to implement the "replace" operation, so "key" must
 // be an already existing index in "d".
 func (d *partialArray) set(key string, val *lazyNode, options *ApplyOptions) error {
+	if d == nil {
+		return ErrExpectedArray
+	}
+
 	idx, err := strconv.Atoi(key)
 	if err != nil {
 		return err
@@ -669,6 +678,10 @@ func (d *partialArray) set(key string, val *lazyNode, options *ApplyOptions) err
 }
 
 func (d *partialArray) add(key string, val *lazyNode, options *ApplyOptions) error {
+	if d == nil {
+		return ErrExpectedArray
+	}
+
 	if key == "-" {
 		d.nodes = append(d.nodes, val)
 		return nil
@@ -708,6 +721,10 @@ func (d *partialArray) add(key string, val *lazyNode, options *ApplyOptions) err
 }
 
 func (d *partialArray) get(key string, options *ApplyOptions) (*lazyNode, error) {
+	if d == nil {
+		return nil, ErrExpectedArray
+	}
+
 	if key == "" {
 		return d.self, nil
 	}
@@ -736,6 +753,10 @@ func (d *partialArray) get(key string, options *ApplyOptions) (*lazyNode, error)
 }
 
 func (d *partialArray) remove(key string, options *ApplyOptions) error {
+	if d == nil {
+		return ErrExpectedArray
+	}
+
 	idx, err := strconv.Atoi(key)
 	if err != nil {
 		return err
